@@ -392,6 +392,11 @@ Additions for cli/argument_parsing.py, introspection.py and the get_args() of th
                       (class LoopReturn) into `loop_ret = None; for ..: .. loop_ret = e; break ..; if loop_ret is not None: return loop_ret`
                       with loop_ret a fresh variable of type `opt T`, T the return type (a returned None is `Some None`).  At most one such
                       loop; refused when the loop has a `break` of its own, an else clause, or the return sits in a nested loop / with / try.
+Addition for nextflow/scripts/batchie.py validate_job_dir_and_return_meta after the repair of the torn-marker finding (C19):
+  cfg["try_except_classes"]  [exception class names]: the one handler of a cfg["try_prims"] statement may also be `except E:` with E a
+                      listed class (no `as`).  The configuration TRUSTS that the failure answers of the declared primitive are exactly
+                      its exceptions of class E (json.load: ValueError = JSONDecodeError / UnicodeDecodeError); everything else as for
+                      cfg["try_prims"].  Without the key only a bare `except:` / `except Exception:` is accepted, as before.
 """
 import ast
 
@@ -1917,8 +1922,9 @@ class Tr:
         if st.orelse or st.finalbody or len(st.handlers) != 1:
             raise Unsupported("try statement other than try / one except")
         h = st.handlers[0]
-        if h.name is not None or not (h.type is None or (isinstance(h.type, ast.Name) and h.type.id == rn("Exception"))):
-            raise Unsupported("except clause other than a bare `except:` / `except Exception:`")
+        named = [rn("Exception")] + [rn(c) for c in self.cfg.get("try_except_classes", [])]
+        if h.name is not None or not (h.type is None or (isinstance(h.type, ast.Name) and h.type.id in named)):
+            raise Unsupported("except clause other than a bare `except:` / `except Exception:` / a class of cfg[\"try_except_classes\"]")
         jumps = (ast.Continue, ast.Return, ast.Break, ast.Raise)
         if any(isinstance(n, jumps) for part in (st.body, h.body) for x in part for n in ast.walk(x)):
             raise Unsupported("continue / break / return / raise inside try / except")
